@@ -10,6 +10,16 @@ TRUST = ("trusts the Go type checker, go/cfg, go/ssa, the documented semantics o
 
 # property id -> (claimed text, technique, design_ref)   (only built properties appear here)
 CLAIMS = {
+    "C19": (
+        "Decides: every rate table folded from the Go sources equals data/regimes/*.json value for value; every regime/addon literal and "
+        "catalogue registration has its data file and every data file its definition; the aggregator packages import every defining package "
+        "and the root imports the aggregators; every schema registration has its data/schemas file and vice versa; data.Content embeds the "
+        "five directories; in the published definitions currencies are published currencies, time zones exist in the tz database, correction "
+        "types are invoice types, correction/category/rate/scenario extension keys are defined somewhere, required addons exist, the rounding "
+        "rule is defined, and every tag a scenario filters on is offered by the definition or the regime of its country; definition "
+        "self-validation lists every field (4 listed exceptions with reasons). Not decided: byte equality of regenerated files.",
+        "static analysis: constant folding of definition literals, set comparison with the shipped data files, import-graph and embed-directive checks",
+        "§4 C19"),
     "C13": (
         "Wiring only: in every regime package each function that validates or normalises a *tax.Identity is reachable from the function the "
         "regime definition registers as Validator / Normalizer through that dispatcher's `case *tax.Identity`; every regime that validates "
